@@ -407,6 +407,7 @@ impl Part for Connect {
         // the generated ops never contain transport selection; it is appended here with real loopback addresses
         let mut ops: Vec<Op> = c.ops.iter().filter(|o| !matches!(o, Op::Tcp | Op::Udp(_) | Op::UdpAny(_) | Op::Udp6(_))).cloned().collect();
         let received: Vec<Vec<u8>>;
+        let mut expected_count = 1usize;
         let model;
         if !c.udp {
             let listener = std::net::TcpListener::bind("127.0.0.1:0").map_err(|e| {
@@ -418,40 +419,55 @@ impl Part for Connect {
             ops.extend(c.post.iter().filter(|o| !matches!(o, Op::Tcp | Op::Udp(_) | Op::UdpAny(_) | Op::Udp6(_) | Op::Relay)).cloned());
             let (b, m) = apply(&ops, addr).map_err(|e| Fail::new("harness:apply", e))?;
             model = m;
-            let server = std::thread::spawn(move || {
-                let (mut s, _) = listener.accept().ok()?;
-                s.set_read_timeout(Some(Duration::from_secs(5))).ok()?;
-                let mut all = vec![];
-                s.read_to_end(&mut all).ok()?;
-                Some(all)
-            });
-            let r: Result<Result<(), String>, String> = if c.async_api {
-                guard(|| {
-                    let rt = tokio::runtime::Builder::new_current_thread().enable_all().build().unwrap();
-                    rt.block_on(async { b.connect_async().await.map(|f| drop(f)).map_err(|e| e.to_string()) })
-                })
-            } else {
-                guard(|| b.connect_blocking().map(|f| drop(f)).map_err(|e| e.to_string()))
-            };
+            // the builder is connected TWICE (it is documented as reusable): the second connection must carry the same handshake
             let unrepresentable = model.interval.map(|i| i > 65535).unwrap_or(false);
-            match r {
-                Err(p) => fail!("c18:connect-panics", "tcp connect panicked: {p}"),
-                Ok(Err(e)) => {
-                    if !unrepresentable {
-                        fail!("c18:connect-fails", "tcp connect to a listening loopback socket failed: {e}");
-                    }
-                },
-                Ok(Ok(())) => {},
+            let mut streams: Vec<Vec<u8>> = vec![];
+            for round in 0..2 {
+                let l2 = listener.try_clone().map_err(|e| Fail::new("harness:listener", e.to_string()))?;
+                let server = std::thread::spawn(move || {
+                    let (mut s, _) = l2.accept().ok()?;
+                    s.set_read_timeout(Some(Duration::from_secs(5))).ok()?;
+                    let mut all = vec![];
+                    s.read_to_end(&mut all).ok()?;
+                    Some(all)
+                });
+                let r: Result<Result<(), String>, String> = if c.async_api {
+                    guard(|| {
+                        let rt = tokio::runtime::Builder::new_current_thread().enable_all().build().unwrap();
+                        rt.block_on(async { b.connect_async().await.map(|f| drop(f)).map_err(|e| e.to_string()) })
+                    })
+                } else {
+                    guard(|| b.connect_blocking().map(|f| drop(f)).map_err(|e| e.to_string()))
+                };
+                match r {
+                    Err(p) => fail!("c18:connect-panics", "tcp connect #{} panicked: {p}", round + 1),
+                    Ok(Err(e)) => {
+                        if !unrepresentable {
+                            fail!("c18:connect-fails", "tcp connect #{} to a listening loopback socket failed: {e}", round + 1);
+                        }
+                    },
+                    Ok(Ok(())) => {},
+                }
+                let bytes = server.join().ok().flatten().ok_or_else(|| Fail::new("c18:nothing-received", "the listener saw no complete stream"))?;
+                if unrepresentable {
+                    // an interval the 16-bit field cannot carry must be refused, never sent as some other value
+                    ensure!(bytes.is_empty(), "c18:unrepresentable-interval-sent-as-another-value", "interval {:?} ms does not fit the ISI field, yet the peer received {}", model.interval, hex(&bytes));
+                }
+                streams.push(bytes);
             }
-            let bytes = server.join().ok().flatten().ok_or_else(|| Fail::new("c18:nothing-received", "the listener saw no complete stream"))?;
             if unrepresentable {
-                // an interval the 16-bit field cannot carry must be refused, never sent as some other value
-                ensure!(bytes.is_empty(), "c18:unrepresentable-interval-sent-as-another-value", "interval {:?} ms does not fit the ISI field, yet the peer received {}", model.interval, hex(&bytes));
                 ev.class("refused: interval out of range");
                 ev.nontrivial(&format!("{c:?}"));
                 return Ok(());
             }
-            received = vec![bytes];
+            ensure!(
+                streams[0] == streams[1],
+                "c18:handshake-differs-from-configuration",
+                "the same builder connected twice: the first connection sent {}, the second {}",
+                hex(&streams[0]),
+                hex(&streams[1])
+            );
+            received = vec![streams.remove(0)];
         } else {
             let peer = std::net::UdpSocket::bind("127.0.0.1:0").map_err(|e| {
                 eprintln!("INCONCLUSIVE: cannot bind loopback UDP: {e}");
@@ -504,7 +520,23 @@ impl Part for Connect {
                         fail!("c18:connect-fails", "udp connect failed: {e}");
                     }
                 },
-                Ok(Ok(())) => {},
+                Ok(Ok(())) => {
+                    // the builder is reusable: a second connection (the first one is closed) sends the same handshake
+                    let r2: Result<Result<(), String>, String> = if c.async_api {
+                        guard(|| {
+                            let rt = tokio::runtime::Builder::new_current_thread().enable_all().build().unwrap();
+                            rt.block_on(async { b.connect_async().await.map(|f| drop(f)).map_err(|e| e.to_string()) })
+                        })
+                    } else {
+                        guard(|| b.connect_blocking().map(|f| drop(f)).map_err(|e| e.to_string()))
+                    };
+                    match r2 {
+                        Err(p) => fail!("c18:connect-panics", "second udp connect with the same builder panicked: {p}"),
+                        Ok(Err(e)) if e.contains("in use") || e.contains("AddrInUse") => {},
+                        Ok(Err(e)) => fail!("c18:connect-fails", "second udp connect with the same builder failed: {e}"),
+                        Ok(Ok(())) => expected_count = 2,
+                    }
+                },
             }
             peer.set_nonblocking(true).unwrap();
             if model.interval.map(|i| i > 65535).unwrap_or(false) {
@@ -529,9 +561,9 @@ impl Part for Connect {
         let want = reference_isi_frame(&model);
         let what = if c.udp { "datagrams" } else { "bytes" };
         ensure!(
-            received.len() == 1 && received[0] == want,
+            received.len() == expected_count && received.iter().all(|r| *r == want),
             if received.iter().map(|r| r.len()).sum::<usize>() > want.len() { "c18:more-than-the-isi-sent" } else { "c18:handshake-differs-from-configuration" },
-            "{} {} connect, {} mode: peer received {what} {:?}, expected exactly one ISI frame {}",
+            "{} {} connect, {} mode: peer received {what} {:?}, expected exactly one ISI frame {} per connection ({expected_count} connections from one builder)",
             if c.async_api { "async" } else { "blocking" },
             if c.udp { "udp" } else { "tcp" },
             crate::refs::compare::mode_name(&mode),
